@@ -29,6 +29,9 @@ CheckCase(o) ==
                   \cup (IF o.units <= TwinRoundingUnitsPerStep * (Len(o.seqA) + 1) THEN {} ELSE {V(o, "StatesEqualToRounding")})
             [] o.mode = "tolerance" ->
                   (IF o.tolUnits <= TwinTolUnits THEN {} ELSE {V(o, "StatesEqualToTolerance")})
+                  \* both runs kept dense output and end at the same time: their dense solutions agree at common probe times
+                  \* (denseTolUnits = -1: not applicable)
+                  \cup (IF o.denseTolUnits <= TwinTolUnits THEN {} ELSE {V(o, "DenseSolutionsEqualToTolerance")})
             [] OTHER -> {V(o, "UnknownMode")})
 Init == i = 1 /\ bad = {}
 Next == /\ i <= Len(Cases)
